@@ -56,6 +56,9 @@ def load_variants(pid):
                             "patch": os.path.join(sd, d, "patch.diff"),
                             "expect": [],
                             "allow_exit2": pid in meta.get("refused_by", []),
+                            "other_checks": [c for c in meta.get(
+                                "detected_by", []) if c != pid]
+                            if pid == meta.get("property") else [],
                             "known_limitation": meta.get(
                                 "known_limitation")})
     return out
@@ -160,6 +163,14 @@ def selftest(pid, root, jobs=None):
                 or (verdict == "analysis-error" and v.get("allow_exit2"))
             if ok:
                 rep["mutants_fired"] += 1
+            elif verdict == "silent" and v.get("known_limitation") and \
+                    v.get("other_checks"):
+                # seeded for this property, but the code it changes is
+                # decided (and the change reported) by another property
+                rep["limits"].append("mutant %s: silent here, reported by "
+                                     "%s" % (name, ", ".join(
+                                         v["other_checks"])))
+                rep["mutants"] -= 1
             else:
                 rep["misses"].append("mutant %s: %s %s (expected %s) %s" % (
                     name, verdict, rules, want or "any rule", msg[-300:]))
